@@ -47,6 +47,32 @@ pub fn run(args: &Args) {
                 Err(_) => res.mismatch("violation", "C15/get_latest_volume/hang", "no result".into(), json!({"p": p, "k": k})),
             }
         }
+        // two discoveries at once (different sites, one runtime): each reports the listings IT issued, whatever else the
+        // process is doing meanwhile; both results are judged like any other
+        let pairs = if args.thorough { 40 } else { 6 };
+        for n_pair in 0..pairs {
+            sim.clear();
+            sim.set_handler(None);
+            let shapes2 = [(rng.below(N), 1 + rng.below(N)), (rng.below(N), if n_pair % 3 == 0 { 1 } else { 1 + rng.below(40) })];
+            for (site, (p, k)) in ["KDMX", "KTLX"].iter().zip(shapes2.iter()) {
+                for i in 0..N {
+                    let d = (p + N - i) % N;
+                    if d < *k {
+                        let t = past + Duration::minutes((k - d) as i64);
+                        sim.put("unidata-nexrad-level2-chunks", &format!("{}/{}/{}-001-S", site, i + 1, t.format("%Y%m%d-%H%M%S")), Obj { data: vec![0; 8], last_modified: t, lm_text: None, size_text: None });
+                    }
+                }
+            }
+            let (ra, rb) = tokio::join!(get_latest_volume("KDMX"), get_latest_volume("KTLX"));
+            for (site, (p, k), r) in [("KDMX", shapes2[0], ra), ("KTLX", shapes2[1], rb)] {
+                res.case(p * 1000 + k + 7_000_000 + n_pair as u64, true);
+                let lists = sim.log().iter().filter(|q| q.is_list() && q.q("prefix").map(|x| x.starts_with(site)).unwrap_or(false)).count();
+                match r {
+                    Ok(r) => tr.ev(json!({"ep": 1, "n": N, "p": p, "k": k, "vol": r.volume.map(|v| v.as_number()).unwrap_or(0), "calls": r.calls, "counted": lists, "concurrent": true})),
+                    Err(e) => res.mismatch("violation", "C15/get_latest_volume/error", format!("{e:?}"), json!({"p": p, "k": k, "concurrent": true})),
+                }
+            }
+        }
     });
     res.sample(json!({"entry": "get_latest_volume", "bucket": "simulated, 999 directories", "note": "shape = (newest index p, populated count k); volume number = index + 1"}));
     tr.finish();
